@@ -25,3 +25,15 @@ Fixpoint inside (l : list pc) : nat :=
 Definition mutual_exclusion (l : list pc) : Prop := holders l <= 1.
 Definition never_more_than_created (permits : option nat) (l : list pc) : Prop :=
   match permits with None => holders l = 0 | Some v => v + holders l <= 1 end.
+
+(* conservation of the single permit: once the lock exists its one permit is always exactly somewhere --
+   available (the value of the semaphore), in the hands of a live process, or destroyed together with a process
+   that was killed (no user code ran) while it held the lock [lost].  No drift (never more than one), no leak
+   (never fewer unless a holder was killed). *)
+Definition conservation (permits : option nat) (l : list pc) (lost : nat) : Prop :=
+  match permits with
+  | None => holders l = 0 /\ lost = 0
+  | Some v => v + holders l + lost = 1
+  end.
+
+Definition all_done (l : list pc) : Prop := forall c, In c l -> c = Done.
